@@ -297,3 +297,38 @@ func ZZ_C12_ServerHistory() {
 	}
 	zzReach("C12.server.done")
 }
+
+// The chain-length limit: whatever chain the replica agrees to build, it can open
+// again.  With the limit set to L, snapshots are taken until one is refused; after every
+// accepted one a fresh process must be able to open the directory and see the same chain.
+func ZZ_C12_ChainLimit() {
+	fs := zzInstallFS()
+	limit := 3 + zzConcretize(zzChoice("limit", 3)) // 3..5 disks
+	saved := types.MaxChainLength
+	types.MaxChainLength = limit
+	r, err := zzOpenReplica()
+	zzAssume(err == nil)
+	r.mode = types.RW
+	names := []string{"c0", "c1", "c2", "c3", "c4", "c5", "c6", "c7"}
+	refused := false
+	for i := 0; i < limit+2 && !refused; i++ {
+		before := zzMemDigest(r)
+		serr := r.Snapshot(names[i], zzNondetBool("user"), "t")
+		after := zzMemDigest(r)
+		if serr != nil {
+			refused = true
+			zzReach("C12.limit.refused")
+			zzAssert(zzSameAttrs(before, after), "C12.limit.refused-snapshot-changed-the-chain")
+		}
+		zzWellFormed("C12.limit.live", r)
+		fs.Revive()
+		rr, oerr := zzOpenReplica()
+		zzAssert(oerr == nil && rr != nil, "C12.limit.chain-the-replica-built-cannot-be-reopened")
+		if rr != nil {
+			zzAssert(zzSameAttrs(zzMemDigest(rr), after), "C12.limit.reopen-sees-different-chain")
+		}
+	}
+	zzAssert(refused, "C12.limit.no-snapshot-was-ever-refused")
+	types.MaxChainLength = saved
+	zzReach("C12.limit.done")
+}
